@@ -131,6 +131,15 @@ pub fn build(
         };
 
         let vftable_path = vftable_type.path.clone();
+        // The generated item may only replace itself (left by an earlier attempt at this type),
+        // never a declaration of the same name.
+        if let Some(existing) = semantic.type_registry.get(&vftable_path) {
+            if *existing != vftable_type {
+                anyhow::bail!(
+                    "the type `{vftable_path}` generated for the vftable of `{resolvee_path}` is already defined"
+                );
+            }
+        }
         let vftable_pointer_type = Type::ConstPointer(Box::new(Type::Raw(vftable_path)));
         semantic.add_item(vftable_type)?;
 
